@@ -369,6 +369,21 @@ example : exGrid.width = 7 ∧ exGrid.height = 5 ∧ blockCols exGrid = 3 ∧ pe
 example : toChunksW .width exGrid = .ok [[⟨1,1⟩, ⟨2,1⟩, ⟨1,2⟩, ⟨2,2⟩], [⟨4,1⟩, ⟨5,1⟩, ⟨4,2⟩, ⟨5,2⟩], [⟨7,1⟩, ⟨7,2⟩],
     [⟨1,4⟩, ⟨2,4⟩, ⟨1,5⟩, ⟨2,5⟩], [⟨4,4⟩, ⟨5,4⟩, ⟨4,5⟩, ⟨5,5⟩], [⟨7,4⟩, ⟨7,5⟩]] := by decide
 
+/-- the hypothesis set of `chunks_separate_grid(_blocks)` on `exGrid` with the repaired tiles-per-row: selected tiles of
+the visible rectangle with a common chunk id, lying in a common block; tiles of different blocks get different ids -/
+example : within exGrid 1 1 = true ∧ within exGrid 2 2 = true ∧ InVis exGrid ⟨1, 1⟩ ∧ InVis exGrid ⟨2, 2⟩ ∧
+    blockCols exGrid ≤ perRow .width exGrid ∧ 0 ≤ exGrid.gapX ∧ 0 ≤ exGrid.gapY ∧
+    chunkIdW .width exGrid ⟨1, 1⟩ = .ok 0 ∧ chunkIdW .width exGrid ⟨2, 2⟩ = .ok 0 ∧
+    InBlock exGrid 0 0 ⟨1, 1⟩ ∧ InBlock exGrid 0 0 ⟨2, 2⟩ ∧ InBlock exGrid 2 1 ⟨7, 5⟩ ∧
+    chunkIdW .width exGrid ⟨7, 5⟩ = .ok 5 ∧ chunkIdW .width exGrid ⟨1, 4⟩ = .ok 3 := by decide
+
+/-- the clauses of `toCoords_spec` on concrete tiles: (3,1) is in the rectangle and on the map but in a gap; (8,1) is
+in the rectangle but off the map (`is_within_selection` says `True` for it – it only tests the raw rectangle – which
+is why `isWithin_agrees` speaks about the tiles of the map); (7,1) is selected -/
+example : InRect exGrid ⟨3, 1⟩ ∧ InMap exGrid ⟨3, 1⟩ ∧ patB exGrid 3 1 = false ∧
+    InRect exGrid ⟨8, 1⟩ ∧ ¬ InMap exGrid ⟨8, 1⟩ ∧ isWithin exGrid 8 1 = .ok true ∧
+    InRect exGrid ⟨7, 1⟩ ∧ InMap exGrid ⟨7, 1⟩ ∧ InBlock exGrid 2 0 ⟨7, 1⟩ ∧ isWithin exGrid 7 1 = .ok true := by decide
+
 /-- a tall rectangle: the pinned code meets the hypothesis of `chunks_separate_grid` -/
 def exTall : Area := { mk0 8 2 0 4 7 with state := .grid }
 example : Valid exTall ∧ exTall.width ≤ exTall.height ∧ 0 < exTall.px ∧ blockCols exTall ≤ perRow .height exTall := by
@@ -380,6 +395,13 @@ def exCorners : Area := { mk0 9 1 2 6 5 with state := .corners, cornerX := 2 }
 
 example : Valid exLines ∧ toChunks exLines = .ok [[⟨0,1⟩, ⟨1,1⟩, ⟨2,1⟩, ⟨3,1⟩, ⟨4,1⟩, ⟨5,1⟩, ⟨0,2⟩, ⟨1,2⟩, ⟨2,2⟩, ⟨3,2⟩, ⟨4,2⟩, ⟨5,2⟩],
     [⟨0,4⟩, ⟨1,4⟩, ⟨2,4⟩, ⟨3,4⟩, ⟨4,4⟩, ⟨5,4⟩, ⟨0,5⟩, ⟨1,5⟩, ⟨2,5⟩, ⟨3,5⟩, ⟨4,5⟩, ⟨5,5⟩]] := by decide
+
+example : within exLines 0 1 = true ∧ within exLines 5 2 = true ∧ chunkId exLines ⟨0, 1⟩ = .ok 0 ∧
+    chunkId exLines ⟨5, 2⟩ = .ok 0 ∧ lineIdx exLines ⟨0, 1⟩ = 0 ∧ chunkId exLines ⟨3, 4⟩ = .ok 1 := by decide
+
+example : within exCorners 5 2 = true ∧ within exCorners 6 2 = true ∧ chunkId exCorners ⟨5, 2⟩ = .ok 1 ∧
+    chunkId exCorners ⟨6, 2⟩ = .ok 1 ∧ InCorner exCorners 1 ⟨5, 2⟩ ∧ InCorner exCorners 1 ⟨6, 2⟩ ∧
+    ¬ InCorner exCorners 0 ⟨5, 2⟩ := by decide
 
 example : Valid exCorners ∧ CornersDisjoint exCorners ∧
     toChunks exCorners = .ok [[⟨1,2⟩, ⟨2,2⟩], [⟨5,2⟩, ⟨6,2⟩], [⟨1,5⟩, ⟨2,5⟩], [⟨5,5⟩, ⟨6,5⟩]] := by decide
